@@ -406,6 +406,11 @@ where
             "folder",
         );
 
+        // Decode the events before touching the event log so that
+        // a patch carrying malformed event data is refused without
+        // having been appended
+        let events = diff.patch.into_events::<WriteEvent>().await?;
+
         let checked_patch = {
             let log =
                 self.folders_mut().get_mut(folder_id).ok_or_else(|| {
@@ -419,7 +424,6 @@ where
             // Must update files on disc when we encounter a change
             // to the vault flags so that the NO_SYNC flag will be
             // respected
-            let events = diff.patch.into_events::<WriteEvent>().await?;
             for event in events {
                 if let WriteEvent::SetVaultFlags(flags) = event {
                     self.set_folder_flags(folder_id, flags).await?;
